@@ -58,6 +58,14 @@ func VerifHarness_C06_CallExisting() {
 	conf := &config.Method{Definition: &method.Definition{}, Fields: map[string]*config.FieldMapping{}, EnumMapping: &config.EnumMapping{Map: map[string]string{}}}
 	ctx := &builder.MethodContext{Namer: namer.New(), Conf: conf, SeenNamed: map[string]struct{}{}, AvailableContext: available,
 		Signature: xtype.Signature{Source: "x", Target: "y"}, Context: map[string]*xtype.JenID{}}
+	// the calling method may be a method over pointers to this very pair that carries field settings for it:
+	// an extend function for the pair would bypass them
+	settings := nondetChoice("calling-method-has-field-settings-for-the-pair", 2) == 1
+	if settings {
+		conf.RawFieldSettings = []string{"map A B"}
+		conf.Definition.Source = xtype.TypeOf(types.NewPointer(src.T))
+		ctx.FieldsTarget = tgt.String
+	}
 	const call = "(*github.com/jmattheis/goverter/generator.generator).CallMethod"
 	verifStubReturn(call, []jen.Code(nil), xtype.VariableID(jen.Id("r")), (*builder.Error)(nil))
 	verifStubReturn("(*github.com/jmattheis/goverter/generator.generator).buildNoLookup", []jen.Code(nil), xtype.VariableID(jen.Id("b")), (*builder.Error)(nil))
@@ -78,6 +86,8 @@ func VerifHarness_C06_CallExisting() {
 	calls := verifEffectCount("call:" + call)
 	verifReach("converted")
 	switch {
+	case hasExtend && (!extNeeds || hasCtx) && settings:
+		verifAssert("extend-function-that-would-bypass-field-settings-is-reported", err != nil && calls == 0)
 	case hasExtend && (!extNeeds || hasCtx):
 		verifAssert("extend-function-is-called", err == nil && calls == 1 && verifEffectArg("call:"+call, 0, 2).(*method.Definition) == extDef)
 	case hasExtend:
